@@ -244,8 +244,8 @@ pub fn run(args: &[String]) {
             let service = svc::standard_service(mlog.clone());
             loop {
                 let w = next.fetch_add(1, Ordering::SeqCst);
-                if w >= work.len() {
-                    break;
+                if w >= work.len() || failures.lock().unwrap().len() > 25 {
+                    break; // enough evidence; every further hang would only cost its timeout
                 }
                 let (ref mname, ref mbytes) = work[w];
                 let (ci, j) = ctx[w % ctx.len()];
@@ -295,6 +295,10 @@ pub fn run(args: &[String]) {
                         (|| {
                             if obs.end == "panic" {
                                 return Err("the service panicked".to_string());
+                            }
+                            if obs.end == "hang" && !String::from_utf8_lossy(&obs.out).contains("\"tok\"") {
+                                // whatever the mutant decodes to, the connection is either served or closed
+                                return Err(format!("connection neither answered nor closed within {:?} (replies so far: {:?})", HANG_TIMEOUT, lossy(&obs.out)));
                             }
                             // upgraded connections (mutant turned into an Up call) have no sentinel reply and stay open until we close: fine
                             let (msgs, rest) = split_nul(&obs.out);
